@@ -21,9 +21,9 @@ SHARD_TIMEOUT = {'quick': 600, 'thorough': 2400}
 EXHAUSTIVE = {'quick': True, 'thorough': True}
 MIN_HITS = {
     'quick': {'mon:partition': 500, 'mon:bucket': 300, 'mon:mask': 300, 'contract:pick_final': 300, 'contract:pad': 100,
-              'mon:readonly': 500, 'mon:reiterate': 500},
+              'mon:readonly': 500, 'mon:reiterate': 500, 'hit:held-batches': 1000},
     'thorough': {'mon:partition': 5000, 'mon:bucket': 3000, 'mon:mask': 3000, 'contract:pick_final': 3000,
-                 'contract:pad': 1000, 'mon:readonly': 5000, 'mon:reiterate': 5000},
+                 'contract:pad': 1000, 'mon:readonly': 5000, 'mon:reiterate': 5000, 'hit:held-batches': 4000},
 }
 
 
@@ -264,6 +264,33 @@ def check_point(ctx, fedjax, cd, rng, n, b, k, ContractBroken):
     same = len(it1) == len(it2) and all(
         set(x) == set(y) and all(bit_equal(x[f], y[f]) for f in x) for x, y in zip(it1, it2))
     ctx.check(same, 'reiterate/padded', 'padded_batch second iteration differs', wit)
+
+  # ---- batches already handed out stay what they were: a second dataset with the same column layout and row count (so the
+  #      same padded shapes) but different values is batched while the first dataset's batches are still held by the consumer
+  if r.ok and n > 0:
+    held = r.value[0]
+    snap = [{f: np.array(v, copy=True) for f, v in bt.items()} for bt in held]
+    raw2 = {}
+    for name, v in raw.items():
+      if v.dtype.kind in 'iu':
+        raw2[name] = (v + np.asarray(7, v.dtype)).astype(v.dtype)
+      elif v.dtype.kind == 'f':
+        raw2[name] = (v * np.asarray(-2, v.dtype) - np.asarray(1, v.dtype)).astype(v.dtype)
+      elif v.dtype.kind == 'b':
+        raw2[name] = ~v
+      else:
+        raw2[name] = np.roll(v, 1, axis=0) if n > 1 else v.copy()
+    ds2 = cd.ClientDataset(raw2, pre)
+    log_keep = list(log)
+    r2 = ctx.call('ClientDataset.padded_batch', lambda: list(ds2.padded_batch(batch_size=b, num_batch_size_buckets=k)), witness=wit)
+    del log[len(log_keep):]
+    if r2.ok:
+      ctx.count('hit:held-batches')
+      same = len(held) == len(snap) and all(set(x) == set(y) and all(bit_equal(x[f], y[f]) for f in x) for x, y in zip(held, snap))
+      bad = next(((i, f) for i, (x, y) in enumerate(zip(held, snap)) for f in y if f not in x or not bit_equal(x[f], y[f])), None)
+      ctx.check(same, 'held/padded-batches-changed-by-later-batching',
+                'padded batches still held by the consumer changed when another dataset of the same layout was batched',
+                {**wit, 'first_changed': bad})
 
   # ---- histories on ONE view object: abandoned pass, then full pass; two live iterators in lock-step
   if n > 0:
